@@ -70,6 +70,9 @@ var FedCorpus = []corpusCase{
 	{"D26-inline-priority", withPrio(fixedIn(`{ me { ... on User { lastName } } }`), "C"), "planner ping-pong"},
 	{"basic-nested", fixedIn(`{ allUsers { firstName photos { url likes owner { firstName } } } }`), ""},
 	{"basic-node", fixedIn(`{ node(id: "u1") { ... on User { firstName lastName } } }`), ""},
+	{"same-node-under-two-keys", fixedIn(`{ a: node(id: "u1") { ... on User { lastName } } b: node(id: "u1") { id ... on User { firstName } } }`), "two places of the response describe one object: each has its own keys (what is stitched into one, or scrubbed from it, must not show in the other)"},
+	{"same-node-under-two-keys-2", fixedIn(`{ a: node(id: "u2") { ... on User { nick photos { likes } } } b: node(id: "u2") { ... on User { lastName } } c: node(id: "u1") { id } }`), ""},
+	{"same-user-under-two-keys", fixedIn(`{ a: user(id: "u1") { lastName } b: user(id: "u1") { id firstName nick } }`), ""},
 	{"basic-interface", fixedIn(`{ pets { name ... on Cat { lives toys } ... on Dog { barks owner { nick } } } }`), ""},
 	{"basic-cycle", fixedIn(`{ me { friends { friends { friends { lastName } } } } }`), ""},
 }
